@@ -1,0 +1,14 @@
+//go:build verif
+
+// Contracts for govc (comment-only file; see /verif/DESIGN.md section 3).
+// Generated skeleton (tools/gen_zk_contracts.py): nil-safety of the verifier side for arbitrary decoded proofs.
+package zkfac
+
+//@ func (*Proof).Verify
+//@   nopanic[C05]
+//@   requires public.N != nil && pedok(public.Aux) && hash != nil && hash.h != nil
+
+//@ func challenge
+//@   nopanic[C05]
+//@   inline
+//@   requires hash != nil && hash.h != nil && public.N != nil && pedok(public.Aux)
